@@ -3,7 +3,7 @@
    Extracted with ExtrOcamlBasic only. *)
 From Coq Require Import String.
 From PV Require Import Base.Bytes Base.Outcome Base.Prim Base.Fmt Base.Enum Spec.ElfGabi Spec.C02Spec
-     Gen.ElfLayouts Model.C02Contents.
+     Gen.ElfLayouts Gen.PyFuns Model.C02Contents.
 Open Scope string_scope.
 
 Definition fval_of (s : sx) : fval := match s with SB b => VB b | _ => VZ (gI s) end.
@@ -81,12 +81,19 @@ Definition dispatch (req : sx) : sx :=
     sx_res sx_ints (address_offsets (gB a1) (gbool a2) (gbool a3) (p_type_table (gS a4))
                                     (gI a5) (gI a6) (gI a7) (gI a8) (gI a9))
   else if op =? "sis" then
-    (* machine phdr shdr *)
+    (* machine phdr shdr: the hand model *)
     let g := sx_phdr a2 in let s := sx_shdr a3 in
     sx_bool (section_in_segment
                (mk_pheader (dec_enum (p_type_table (gS a1)) (p_type g)) (p_offset g) (p_vaddr g) (p_filesz g) (p_memsz g))
                (mk_sheader (dec_enum (sh_type_table (gS a1)) (sh_type s)) (sh_flags s) (sh_addr s) (sh_offset s)
                            (sh_size s) 1))
+  else if op =? "sis_gen" then
+    (* machine phdr shdr: the body translated from the live source (Gen/PyFuns.v) *)
+    let g := sx_phdr a2 in let s := sx_shdr a3 in
+    sx_bool (gen_section_in_segment (p_filesz g) (p_memsz g) (p_offset g)
+               (dec_enum (p_type_table (gS a1)) (p_type g)) (p_vaddr g)
+               (sh_addr s) (sh_flags s) (sh_offset s) (sh_size s)
+               (dec_enum (sh_type_table (gS a1)) (sh_type s)))
   (* ---- spec ---- *)
   else if op =? "spec_sec" then
     (* img le is64 sh_type sh_flags sh_offset sh_size sh_addralign oracle *)
